@@ -186,6 +186,14 @@ func c13Jobs(quick bool) []c13Job {
   "c":{"custom_func":{"name":"javascript","args":[{"const":"v // tail\n + 1"},{"const":"v"},{"xpath":"n"}]}},
   "d":{"custom_func":{"name":"javascript","args":[{"const":"v // tail + 1"},{"const":"v"},{"xpath":"n"}]}}}}}}`,
 			Input: `[{"v":"x","n":1},{"v":"y","n":2}]`})
+	// a script that changes its array / object argument in place: the same argument declaration is used
+	// by other scripts and by a plain field of the record (the result cache hands all of them one value)
+	jobs = append(jobs,
+		c13Job{Name: "js-script-changing-its-argument-in-place", Schema: `{` + h("xml") + `,"transform_declarations":{"FINAL_OUTPUT":{"xpath":"/feed/item","object":{
+  "a_largest":{"custom_func":{"name":"javascript","args":[{"const":"p.sort(function(x,y){return y-x;})[0]"},{"const":"p"},{"array":[{"xpath":"v","type":"int"}]}]}},
+  "b_first":{"custom_func":{"name":"javascript","args":[{"const":"p[0]"},{"const":"p"},{"array":[{"xpath":"v","type":"int"}]}]}},
+  "c_values":{"array":[{"xpath":"v","type":"int"}]}}}}}`,
+			Input: `<feed><item><v>1</v><v>3</v><v>2</v></item><item><v>5</v><v>4</v></item></feed>`})
 	// cross-format histories in one process state: what an earlier job of another format leaves in
 	// the node pool must not matter for the next job
 	byName := map[string]c13Job{}
